@@ -96,13 +96,14 @@ def mapping_getters(F):
     for g, field in (("GetTilesetIndex", "tilesetIndex"), ("GetImageIndex", "tileGraphicIndex")):
         fn = F.fn(M + "::" + g, nparams=2)
         r = returns(fn)
-        want = ("mem", ("idx", ("mem", ("this",), "tileMappings"), ("call", M + "::GetTileMappingIndex", ("this",), (P(fn, 0), P(fn, 1)))), field)
+        want = ("mem", ("idx", ("mem", ("this",), "tileMappings"), F.call_value(M + "::GetTileMappingIndex", ("this",), (P(fn, 0), P(fn, 1)))), field)
         inst = "%s::%s#path" % (M, g)
         req = "returns tileMappings[GetTileMappingIndex(x, y)].%s" % field
-        if len(r) == 1 and fn.term(r[0]["value"]) == want:
+        got = c05.resolve(fn.term(r[0]["value"]), c05.alias_defs(fn)) if len(r) == 1 else None
+        if got == want:
             out.append(ok("R-SIB", inst, fn.loc(r[0]["id"]), fn.qn, req, fmt_term(want)))
         else:
-            out.append(bad("R-SIB", inst, fn.loc(fn.body), fn.qn, req, "returns %s" % (fmt_term(fn.term(r[0]["value"])) if r else "?")))
+            out.append(bad("R-SIB", inst, fn.loc(fn.body), fn.qn, req, "returns %s" % (fmt_term(got) if got else "?")))
     return out
 
 
